@@ -500,7 +500,18 @@ def run_shard(desc, ctx):
     else:
         from vmon import ambient, attach
         attach.attach_data(ctx)
-        ambient.run(ctx, "c04-%s-%s" % (desc["seed"], desc["k"]), desc["n"])
+        attach.attach_abcd(ctx, "C04")
+        def sure(pdet, pprob):
+            # the callers that hand whole (time, lead time, location) blocks with NaN cells to the contingency counter
+            out = []
+            for files in (pdet, pprob):
+                for b in ("above", "above=", "below", "below="):
+                    out.append(list(files) + ["-m", "droc", "-r", "5", "-b", b])
+                    out.append(list(files) + ["-m", "droc0", "-r", "2", "-b", b])
+                    out.append(list(files) + ["-m", "performance", "-r", "5", "-b", b])
+                    out.append(list(files) + ["-m", "ets", "-r", "2,5", "-b", b, "-type", "csv"])
+            return out
+        ambient.run(ctx, "c04-%s-%s" % (desc["seed"], desc["k"]), desc["n"], extra=sure)
         attach.detach_all()
 
 
